@@ -170,7 +170,16 @@ class Q:
                 n = n / d.LC if d != 1 else n
                 d = f.R.one
             else:
-                n, d = n.cancel(d)
+                if len(n) * len(d) <= CANCEL_SIZE_CAP:
+                    n, d = n.cancel(d)
+                else:
+                    if n == d:
+                        n, d = f.R.one, f.R.one
+                    else:
+                        try:
+                            n, d = _with_alarm(CANCEL_TIME_CAP, n.cancel, d)
+                        except _Timeout:
+                            pass          # keep the uncancelled fraction (still exact)
                 # canonical sign/scale of the denominator
                 lc = d.LC
                 if lc != 1:
@@ -364,6 +373,8 @@ def _abs_decided(q):
     return q if sg >= 0 else -q
 
 
+CANCEL_SIZE_CAP = 20000
+CANCEL_TIME_CAP = 5.0
 FACTOR_TERM_CAP = 400
 FACTOR_TIME_CAP = 3.0
 
